@@ -8,17 +8,19 @@ namespace P0f
 
 theorem gen_findLoop (recs : List Rec) (p : PSig) (d : Int) (l : List Rec) (g f : Option TcpMatch) :
     Gen.findTcpMatch_loop0 recs p d l g f = findLoop p d l f g := by
-  induction l generalizing g f with
-  | nil =>
-    unfold Gen.findTcpMatch_loop0 findLoop findFinish
-    cases g <;> cases f <;> simp
-  | cons r rs ih =>
-    unfold Gen.findTcpMatch_loop0 findLoop
-    rw [gen_tcpSignaturesMatch]
-    cases h : tcpMatch r.sig p d with
-    | none => simp [ih]
-    | some mt =>
-      cases mt <;> cases hg : r.generic <;> cases g <;> cases f <;> simp [ih, hg]
+  first
+  | exact rfl
+  | (induction l generalizing g f with
+     | nil =>
+       unfold Gen.findTcpMatch_loop0 findLoop findFinish
+       cases g <;> cases f <;> simp
+     | cons r rs ih =>
+       unfold Gen.findTcpMatch_loop0 findLoop
+       rw [gen_tcpSignaturesMatch]
+       cases h : tcpMatch r.sig p d with
+       | none => simp [ih]
+       | some mt =>
+         cases mt <;> cases hg : r.generic <;> cases g <;> cases f <;> simp [ih])
 
 /-- `find_tcp_match` as printed from the source = the model's (C02) -/
 theorem gen_findTcpMatch (recs : List Rec) (p : PSig) (d : Int) :
